@@ -319,3 +319,95 @@ func H_C02_literals() {
 	verif.Assert(verif.Eq(got, []any{Map{"k": v, "s": a + v, "p": a * v}}), "literal-value")
 	verif.Reach("end")
 }
+
+var colCaseTemplates = []string{
+	"SELECT {K}, {V} FROM t WHERE {V} > ?",
+	"SELECT {K} AS x, {V} + 1 AS y FROM t",
+	"SELECT {K}, COUNT(*) AS n, SUM({V}) AS s FROM t GROUP BY {K}",
+	"SELECT {K}, SUM({V}) AS s FROM t GROUP BY {K} HAVING SUM({V}) > ?",
+	"SELECT {K}, {V} FROM t ORDER BY {V} DESC",
+	"SELECT DISTINCT {K} FROM t",
+	"SELECT x.{K} AS l, y.{V} AS r FROM t x JOIN t y ON x.{K} = y.{K}",
+	"SELECT x.{K} AS l, y.{V} AS r FROM t x LEFT JOIN t y ON x.{V} < y.{V}",
+	"SELECT {K} FROM t WHERE {V} IN (SELECT {V} FROM `<-t` WHERE {K} > ?)",
+	"SELECT {K}, CASE WHEN {V} > ? THEN {K} ELSE {V} END AS c FROM t",
+	"SELECT MAX({V}) AS m, MIN({K}) AS n FROM t WHERE {V} BETWEEN ? AND 100",
+	"SELECT * FROM t WHERE {K} IS NOT NULL AND NOT ({V} < ?)",
+	"SELECT {K}, (SELECT COUNT(*) AS c FROM `<-t` WHERE {V} > ?) AS n FROM t",
+	"SELECT {K} FROM `t{{K}, {V}}` WHERE {V} > ?",
+	"WITH c AS (SELECT {K}, {V} FROM t WHERE {V} > ?) SELECT {K} FROM c ORDER BY {K}",
+}
+
+// H_C02_colcase: column names are the row keys, byte for byte: the same
+// query over a table whose columns are spelled in mixed case (Cat, subTotal)
+// or upper case returns what it returns over the lower-case spelling, with
+// the output keys renamed accordingly - in every clause.
+func H_C02_colcase() {
+	ti := verif.Choose("template", len(colCaseTemplates))
+	sp := verif.Choose("spelling", 3)
+	n := verif.Choose("rows", maxRows(2, 3)+1)
+	names := [][2]string{{"Cat", "subTotal"}, {"KEY1", "VAL"}, {"k_1", "V2x"}}[sp]
+	fill := func(tpl, k, v string) string {
+		out := ""
+		for i := 0; i < len(tpl); i++ {
+			if i+3 <= len(tpl) && tpl[i:i+3] == "{K}" {
+				out += k
+				i += 2
+			} else if i+3 <= len(tpl) && tpl[i:i+3] == "{V}" {
+				out += v
+				i += 2
+			} else {
+				out += tpl[i : i+1]
+			}
+		}
+		return out
+	}
+	verif.Opt("maporder", 1)
+	ref := make([]any, n)
+	mixed := make([]any, n)
+	for i := range ref {
+		k, v := verif.F64("k"), verif.F64("v")
+		verif.Assume(verif.All(k == k, v == v, verif.NotNegZero(k), verif.NotNegZero(v)))
+		ref[i] = Map{"k": k, "v": v}
+		mixed[i] = Map{names[0]: k, names[1]: v}
+	}
+	c := verif.F64("c")
+	var holes []any
+	for i := 0; i < countHoles(colCaseTemplates[ti]); i++ {
+		holes = append(holes, c)
+	}
+	want, werr := runQueryQuiet(Map{"t": ref}, verif.SQL(fill(colCaseTemplates[ti], "k", "v"), holes...))
+	got, gerr := runQueryQuiet(Map{"t": mixed}, verif.SQL(fill(colCaseTemplates[ti], names[0], names[1]), holes...))
+	verif.Assert((werr == nil) == (gerr == nil), "same-error-status")
+	if werr != nil || gerr != nil {
+		verif.Reach("end")
+		return
+	}
+	// rename the output keys of the mixed-case run
+	var renamed []any
+	for _, g := range got {
+		m, isMap := g.(Map)
+		if !isMap {
+			renamed = append(renamed, g)
+			continue
+		}
+		r := Map{}
+		for key, val := range m {
+			switch key {
+			case names[0]:
+				r["k"] = val
+			case names[1]:
+				r["v"] = val
+			default:
+				r[key] = val
+			}
+		}
+		renamed = append(renamed, r)
+	}
+	if ti == 6 || ti == 7 {
+		verif.Assert(eqAnyOrder(renamed, want), "same-result-up-to-renaming")
+	} else {
+		verif.Assert(verif.Eq(renamed, want), "same-result-up-to-renaming")
+	}
+	verif.Reach("end")
+}
